@@ -25,13 +25,15 @@ TOE == /\ Ev("OE")
        /\ (SelRet \/ SelDone2)
        /\ last'.kind = E.kind /\ last'.err = E.err
        /\ [i \in 1..Len(last'.data) |-> Val(last'.data[i])] = E.data
-       /\ ~E.late
+       /\ (E.late => ~Honours)  \* promptly - unless the transport ignores deadlines (deviation DeadlineNoop)
        /\ E.helpers = 0         \* no ctxio helper goroutine is left once the operation has returned
 (* the driver found the operation still blocked when everything had settled: the model must agree *)
 (* that nothing can move (otherwise the real code is stuck where the specification is not)         *)
 TOpFail == /\ Ev("OPFAIL") /\ op # NoOp /\ ~ENABLED (HelperNext \/ CallerNext) /\ UNCHANGED vars
+(* the cancelled operation did not return within the watchdog: explainable only on a transport that ignores deadlines *)
+THang == /\ Ev("HANG") /\ op # NoOp /\ cancelled /\ ~Honours /\ UNCHANGED vars
 Silent == (HelperNext \/ SelDone1) /\ UNCHANGED l
-TraceNext == TReset \/ TPW \/ TPC \/ TOS \/ TCancel \/ TOE \/ TOpFail \/ Silent
+TraceNext == TReset \/ TPW \/ TPC \/ TOS \/ TCancel \/ TOE \/ TOpFail \/ THang \/ Silent
 TraceSpec == TraceInit /\ [][TraceNext]_tvars
 ASSUME TLCSet(1, 0)
 HighWater == /\ IF l > TLCGet(1) THEN TLCSet(1, l) ELSE TRUE
